@@ -78,8 +78,8 @@ func (t *vfWireTrack) observe(dg []byte) string {
 			return t.fail("fec-type-position", "FEC seqid %d (position %d of %d/%d) carries type %#x", f.Seqid, pos, d, p, f.Type)
 		}
 		if t.haveSeq {
-			adv := (f.Seqid + paws - t.lastSeq) % paws
-			if adv == 0 || adv > size+1 {
+			adv := uint32((uint64(f.Seqid) + uint64(paws) - uint64(t.lastSeq)) % uint64(paws))
+			if adv == 0 || adv > uint32(p)+1 {
 				return t.fail("fec-seqid-order", "FEC seqid %d follows %d (ids must increase, skipping at most one parity block)", f.Seqid, t.lastSeq)
 			}
 		}
